@@ -516,6 +516,15 @@ pub fn run_one(seed: u64, cfg: &SimCfg) -> RunResult {
             }
         }
     }
+    // C20: every substream a node opens — for its client half and for its server half — is
+    // negotiated under the node's own protocol name (configured prefix + /ipfs/bitswap/1.2.0)
+    for i in 0..n {
+        let want = protocol_of(&sim.nodes[i].prefix);
+        let rec = sim.nodes[i].rec.lock().unwrap();
+        if let Some(l) = rec.handler.iter().find(|l| l.contains(" out open-substream ") && l.rsplit(' ').next() != Some(want.as_str())) {
+            violations.push(("C20".into(), format!("node {i} (protocol {want}) opened a substream under another protocol name: {l}")));
+        }
+    }
     // C06 / C07 at the network level: the blocks node a's server dispatched to peer b against the
     // blocks b received from a (data ids as multisets; with several connections the order is free)
     for a in 0..n {
